@@ -310,7 +310,9 @@ def run_layer(task: Tuple, col: common.Collector) -> None:
             pobj = ll.pos.get(pr["name"]) or ll.neg.get(pr["name"])
             if pobj is None:
                 continue
-            for req_pdu in (bytes([0x22, 1, 2, 3, 4, 5]), b"", b"\x22", None):
+            # (requests that end before, inside and after the bytes a response may echo)
+            for req_pdu in (bytes([0x22, 1, 2, 3, 4, 5]), b"", b"\x22", bytes([0x22, 0xF1]),
+                            bytes([0x22, 0xF1, 0x90]), None):
                 if mode == "grid":
                     va = codecgen.assignments_for(pr, dobjs, tier, r, hostile=True)[:6]
                 else:
